@@ -217,6 +217,7 @@ class SimSlurm:
         if fault is not None:
             kind = fault
             if kind == "garbage":
+                w.cmd_series_end(vp)
                 w.emit("sbatch", vp, ok=False, why="garbage", **rec)
                 return 0, w.faults.garbage_text(), ""
             w.emit("sbatch", vp, ok=False, why=kind, **rec)
@@ -244,6 +245,7 @@ class SimSlurm:
         j.walltime_s = parse_walltime(info["options"].get("time", ""))
         self.jobs[jid] = j
         self.order.append(j)
+        w.cmd_series_end(vp)
         rec2 = w.emit("sbatch", vp, ok=True, id=jid, **rec)
         j.submit_seq = rec2[0]
         wait = w.queue_wait()
@@ -401,6 +403,7 @@ class SimSlurm:
         if jid is not None:
             j = self.jobs.get(jid)
             if j is None or j.purged:
+                w.cmd_series_end(vp)
                 w.emit("squeue", vp, ok=True, jid=jid, rows=[], invalid=True)
                 return 1, "", "slurm_load_jobs error: Invalid job id specified\n"
             rows = [j]
@@ -422,7 +425,8 @@ class SimSlurm:
             # lets two fields touch
             lines.append("".join(c.ljust(max(pad, len(c) + 1)) for c in cells))
         out = "\n".join(lines) + ("\n" if lines else "")
-        w.emit("squeue", vp, ok=True, jid=jid, rows=[(j.id, j.state) for j in rows if not j.foreign])
+        w.cmd_series_end(vp)
+        w.emit("squeue", vp, ok=True, jid=jid, rows=[(j.id, j.state) for j in rows if not j.foreign], attempt=attempt)
         return 0, out, ""
 
     def scancel(self, vp, argv):
